@@ -64,7 +64,7 @@ fn frame_of(addr: u32, fmt: u32) -> bits::Frame {
     match fmt {
         11 => bits::df11(addr, 5, 0),
         17 => bits::es(17, 5, addr, bits::me_raw(28, 0x1234)),
-        18 => bits::es(18, 2, addr, bits::me_raw(28, 0x1234)),
+        18 => bits::es(18, addr % 8, addr, bits::me_raw(28, 0x1234)), // every control-field value: none of them changes whose address it is
         5 => bits::df5(addr, bits::id13_from_squawk(1, 2, 3, 4, 0), 0),
         20 => bits::df20(addr, bits::ac13_q1(1200), 0, 0),
         21 => bits::df21(addr, bits::id13_from_squawk(7, 0, 0, 0, 0), 0, 0),
